@@ -811,6 +811,14 @@ def flag_table(run, m, F, E):
         def on_store(self2, I, st, inst, p, v, nbytes):
             if p.obj == 'SPECOUT' and not p.off.t:
                 st.ev('spec-store', inst, p.off.c, v)
+            elif p.obj != 'W' and len(st.frames) == 1:
+                st.ev('other-store', inst, p.obj)      # something is remembered elsewhere (a flag applied later?)
+
+        def unroll_for(self2, I, fn, header, st=None):
+            # a loop of a helper called for one character (a table lookup): interpreted exactly
+            if st is not None and len(st.frames) > 1:
+                return 12
+            return c10.ParserHooks.unroll_for(self2, I, fn, header, st) if hasattr(c10.ParserHooks, 'unroll_for') else self2.unroll
     I = Interp(m, F, E, PH(m))
     st = c10.text_state()
     so = Obj('ext', Lin.const(lay['size']))
@@ -853,16 +861,26 @@ def flag_table(run, m, F, E):
             n += 1
             seen[lo] = True
             probs = []
+            und1 = []
             for nm, wv in want.items():
                 gv = got.get(nm, 'untouched')
-                if gv == 'untouched' or not isinstance(gv, int):
-                    probs.append("'%s' does not set %s (expected %s)" % (chr(lo), nm, wv))
+                if isinstance(gv, IntV):
+                    r = s2.range(gv.lin)
+                    if r[0] == r[1]:
+                        gv = r[0]
+                if gv == 'untouched':
+                    if [e for e in evs if e[0] == 'other-store']:
+                        und1.append("'%s' does not store %s in its own iteration, but remembers something else: not decided" % (chr(lo), nm))
+                    else:
+                        probs.append("'%s' does not set %s (expected %s)" % (chr(lo), nm, wv))
+                elif not isinstance(gv, int):
+                    und1.append("'%s' stores a computed value into %s (%r): not decided" % (chr(lo), nm, gv))
                 elif (gv & 0xFF if nm in ('pad', 'always_signed', 'class_prefix', 'numeric_pad') else gv) != wv:
                     probs.append("'%s' sets %s = %s, expected %s" % (chr(lo), nm, gv, wv))
             extra = [nm for nm in got if nm not in want]
             if extra:
                 probs.append("'%s' also changes %s" % (chr(lo), ', '.join(extra)))
-            run.ob('R11.6', short(f.dem), not probs, probs[0] if probs else "'%s' -> %s" % (chr(lo), ', '.join('%s=%s' % kv for kv in sorted(want.items()))),
+            run.ob('R11.6', short(f.dem), False if probs else (None if und1 else True), probs[0] if probs else und1[0] if und1 else "'%s' -> %s" % (chr(lo), ', '.join('%s=%s' % kv for kv in sorted(want.items()))),
                    disc="flag '%s'" % chr(lo), loc=fn_loc(f))
         elif lo == hi and lo == ord('_'):
             n += 1
